@@ -623,3 +623,83 @@ def s_helpers(g, tier):
         out.append(g.r.choice(one) + " " + enc(a))
         out.append(g.r.choice(lst) + " " + enc([g.value(1) for _ in range(g.r.randint(0, 4))]))
     return out
+
+
+def s_scale(g, tier):
+    """sizes, counts and relations a random generator is unlikely to produce: operand counts beyond 255, collections of 33 / 65 / 257 / 10^4
+    elements, 10^5-character strings, 100-key objects, indices equal to the length, keys equal to rendered numbers, long shared prefixes,
+    17-digit decimals, rarely used spellings, Unicode corner cases"""
+    out = []
+    # rarely used spellings
+    for r in [{"var": ["a"]}, {"var": []}, {"var": [[]]}, {"var": [None]}, {"var": [""]}, {"missing": [[]]}, {"missing": []}, {"missing": [[], "a"]}, {"missing": [["a"], "b"]}, {"if": []}, {"?:": []},
+              {"merge": []}, {"cat": [[]]}, {"cat": []}, {"+": []}, {"+": [[]]}, {"*": [[]]}, {"and": [[]]}, {"or": [[]]}, {"!": [[]]}, {"!!": [[[]]]}, {"in": ["", ""]}, {"in": ["", []]},
+              {"substr": ["", 0, 0]}, {"substr": ["", 0]}, {"missing_some": [0, []]}, {"missing_some": [1, []]}, {"reduce": [[], 1, 2]}, {"max": [[]]}, {"min": [[1]]}, {"max": [[1, 2]]},
+              {"-": [[]]}, {"-": [[5]]}, {"/": [[], 1]}, {"%": [[4], [3]]}, {"==": [[], []]}, {"==": [[], ""]}, {"==": [[[]], ""]}, {"==": [[None], ""]}, {"==": [[[], []], ","]}, {"<": [[], 1]},
+              {"<": ["", 1]}, {"<=": ["", ""]}, {"map": [[], []]}, {"filter": [[[]], [[]]]}, {"all": [[[]], [[]]]}, {"some": ["", ""]}, {"none": ["", ""]}, {"all": ["a", "a"]},
+              {"log": []}, {"log": [[]]}, {"var": ["a", None]}, {"var": ["a", []]}, {"var": [[], "d"]}, {"if": [[]]}, {"if": [[], 1]}, {"if": [[], 1, 2]}, {"and": []}, {"or": []},
+              {"cat": [None]}, {"cat": [[None]]}, {"cat": [[None, None]]}, {"cat": [[[]]]}, {"cat": [[[], []]]}, {"cat": [[1, [], 2]]}, {"cat": [{}]}, {"cat": [[{}]]}, {"merge": [[[]]]}, {"merge": [None]},
+              {"in": [None, [None]]}, {"in": [[], [[]]]}, {"in": [{}, [{}]]}, {"in": ["a", "a"]}, {"substr": ["a", 1]}, {"substr": ["a", 1, 1]}, {"substr": ["a", -1, -1]}, {"substr": ["ab", 1, -1]}]:
+        for d in (None, {"a": 1}, [], [[]], "", {"": 1}):
+            out.append(app(r, d))
+    # operand counts
+    for n in (33, 65, 255, 256, 257, 1000):
+        ones = [1] * n
+        out += [app({"+": ones}, None), app({"*": ones}, None), app({"cat": ["a"] * n}, None), app({"merge": [[i] for i in range(n)]}, None), app({"max": list(range(n))}, None), app({"min": list(range(n))}, None),
+                app({"and": [True] * (n - 1) + ["last"]}, None), app({"or": [False] * (n - 1) + ["last"]}, None), app({"if": [False, 0] * (n // 2) + ["else"]}, None),
+                app({"missing": ["k%d" % i for i in range(n)]}, {"k%d" % i: i for i in range(0, n, 2)}), app({"missing_some": [n // 2, ["k%d" % i for i in range(n)]]}, {"k%d" % i: i for i in range(0, n, 2)}),
+                app({"==": ones}, None), app({"<": ones[:4]}, None), app({"var": ones}, None), app({"substr": ["abc"] + ones}, None)]
+    # collection sizes and indices equal to the length
+    for n in (32, 33, 64, 65, 256, 257, 2000 if tier == "quick" else 10000):
+        xs = list(range(n))
+        d = {"xs": xs, "s": "x" * n, "n": n}
+        out += [app({"map": [{"var": "xs"}, {"+": [{"var": ""}, 1]}]}, d), app({"filter": [{"var": "xs"}, {"%": [{"var": ""}, 2]}]}, d), app({"reduce": [{"var": "xs"}, {"+": [{"var": "current"}, {"var": "accumulator"}]}, 0]}, d),
+                app({"all": [{"var": "xs"}, {">=": [{"var": ""}, 0]}]}, d), app({"some": [{"var": "xs"}, {"==": [{"var": ""}, n - 1]}]}, d), app({"none": [{"var": "xs"}, {"==": [{"var": ""}, n]}]}, d),
+                app({"in": [n - 1, {"var": "xs"}]}, d), app({"in": [n, {"var": "xs"}]}, d), app({"merge": [{"var": "xs"}, [n]]}, d),
+                app({"var": "xs.%d" % n}, d), app({"var": "xs.%d" % (n - 1)}, d), app({"var": "xs.-%d" % n}, d), app({"var": "xs.-%d" % (n + 1)}, d), app({"var": ["xs.%d" % n, "dflt"]}, d),
+                app({"var": "s.%d" % n}, d), app({"var": "s.%d" % (n - 1)}, d), app({"var": "s.-%d" % n}, d), app({"missing": ["xs.%d" % (n - 1), "xs.%d" % n, "s.%d" % n, "s.-%d" % n, "s.-%d" % (n + 1)]}, d),
+                app({"substr": [{"var": "s"}, n]}, d), app({"substr": [{"var": "s"}, n - 1]}, d), app({"substr": [{"var": "s"}, -n]}, d), app({"substr": [{"var": "s"}, 0, n]}, d), app({"substr": [{"var": "s"}, 1, -(n - 1)]}, d),
+                app({"substr": [{"var": "s"}, 0, -n]}, d), app({"all": [{"var": "s"}, {"==": [{"var": ""}, "x"]}]}, d), app({"cat": [{"var": "xs"}]}, d), app({"==": [{"var": "xs"}, {"cat": [{"var": "xs"}]}]}, d),
+                app({"max": [{"var": "n"}, n]}, d), app({"all": [xs[:300], {">=": [{"var": ""}, 0]}]}, d)]
+    # long collections holding look-alike elements of different types (a per-element cache keyed on text would conflate them)
+    alike = [1, "1", None, "null", True, "true", [], "[]", 0, "0", False, "false", "", [0], "0", {}, "[object Object]", 1.0, "1.0", [1], "1"]
+    for pad in (0, 3, 31, 32, 38, 300):
+        coll = [0] * pad + alike
+        d = {"c": coll}
+        for pred in ({"===": [{"var": ""}, "1"]}, {"===": [{"var": ""}, 1]}, {"===": [{"var": ""}, None]}, {"===": [{"var": ""}, "null"]}, {"in": [{"var": ""}, ["1", "true", "[]"]]}, {"!==": [{"var": ""}, 0]},
+                     {"===": [{"var": ""}, True]}, {"log": {"var": ""}}, {"==": [{"var": ""}, []]}, {"!": [{"var": ""}]}):
+            for q in ("all", "some", "none", "filter", "map"):
+                out.append(app({q: [{"var": "c"}, pred]}, d))
+        out.append(app({"reduce": [{"var": "c"}, {"cat": [{"var": "accumulator"}, "|", {"var": "current"}]}, ""]}, d))
+        out.append(app({"merge": [{"var": "c"}, {"var": "c"}]}, d)); out.append(app({"in": ["1", {"var": "c"}]}, d)); out.append(app({"in": [[0], {"var": "c"}]}, d))
+    # long strings, long shared prefixes
+    big = "ab" * 1500         # (the model's infix test is quadratic; the 10^5-character string below is used for linear operations only)
+    huge = "ab" * 50000
+    out += [app({"substr": [{"var": ""}, -3]}, huge), app({"substr": [{"var": ""}, 99999, 5]}, huge), app({"==": [{"var": ""}, {"var": ""}]}, huge), app({"<": [{"var": ""}, {"cat": [{"var": ""}, "c"]}]}, huge),
+            app({"var": "99999"}, huge), app({"var": "100000"}, huge), app({"var": -100000}, huge), app({"!!": [{"var": ""}]}, huge), app({"in": ["abc", {"var": ""}]}, "x" * 100000 + "abc")]
+    for a, b in ((big, big), (big, big + "c"), (big + "c", big + "d"), (big + "é", big + "e"), ("x" * 65, "x" * 64), (big, "")):
+        out += [app({"==": [{"var": "a"}, {"var": "b"}]}, {"a": a, "b": b}), app({"<": [{"var": "a"}, {"var": "b"}]}, {"a": a, "b": b}), app({"<=": [{"var": "b"}, {"var": "a"}]}, {"a": a, "b": b}),
+                app({"in": [{"var": "b"}, {"var": "a"}]}, {"a": a, "b": b}), app({"in": [{"var": "a"}, {"var": "b"}]}, {"a": a, "b": b}), app({"===": [{"var": "a"}, {"var": "b"}]}, {"a": a, "b": b}),
+                app({"cat": [{"var": "a"}, {"var": "b"}]}, {"a": a[:1000], "b": b[:1000]}), app({"in": [{"var": "a"}, [{"var": "b"}, {"var": "a"}]]}, {"a": a, "b": b})]
+    # many keys, long keys, keys that are rendered numbers
+    many = {"k%03d" % i: i for i in range(100)}
+    many.update({"1.5": "onepointfive", "1e+21": "big", "-0": "negzero", "0": "zero", "-0.0": "negzerofloat", "1": "one", "1.0": "onefloat", "x" * 64: 64, "x" * 65: 65, "x" * 256: 256})
+    for k in ["k000", "k099", "k100", "1.5", "1e+21", "-0", "-0.0", "1.0", "x" * 64, "x" * 65, "x" * 256, "x" * 257, 1, 0, -1, 1.0, 1.5, -0.0, 1e21]:
+        out += [app({"var": [k]}, many), app({"var": [k, "dflt"]}, many), app({"missing": [k]}, many), app({"missing_some": [1, [k]]}, many)]
+    out += [app({"in": [{"var": ""}, [{"var": ""}]]}, many), app({"==": [{"var": ""}, "[object Object]"]}, many), app({"cat": [{"var": ""}]}, many), app({"!!": [{"var": ""}]}, many)]
+    # decimals with 16 / 17 significant digits, as numbers and as strings
+    for t in ["9007199254740993", "0.30000000000000004", "0.1", "1.7976931348623157e308", "123456789012345678", "12345678901234567", "1234567890123456", "5e-324", "2.2250738585072014e-308",
+              "4.35", "0.000001", "1e-7", "123456789012345680000", "1e21", "1.2345678901234567", "9.999999999999999e22", "1e23", "8.41e21", "2e-323", "1.5e300"]:
+        f = float(t)
+        out += [app({"==": [t, f]}, None), app({"==": [[f], f]}, None), app({"cat": [f]}, None), app({"==": [{"cat": [f]}, f]}, None), app({"+": [t]}, None), app({"+": [[f]]}, None), app({"max": [t, [f]]}, None),
+                app({"<": [t, f]}, None), app({"<=": [t, f]}, None), app({"in": [f, [f]]}, None), app({"===": [f, {"+": [t]}]}, None), "to_string " + enc(f), "str_to_number " + enc(t), "parse_float " + enc(t)]
+    # Unicode corner cases: combining marks, line separators, BOM inside, characters whose case mapping changes length
+    cp = lambda *xs: "".join(chr(x) for x in xs)
+    us = ["e" + cp(0x301), cp(0xe9), "a" + cp(0x2028) + "b", "a" + cp(0x2029) + "b", "a" + cp(0xfeff) + "b", cp(0xfeff), cp(0xdf), cp(0x130), cp(0x1c5), cp(0xfb01), cp(0x1d4b3),
+          cp(0x1f600, 0x200d, 0x1f525), "a" + cp(0) + "b", cp(0x85), cp(0x3000) + "x" + cp(0x3000), cp(0x200b) + "1"]
+    for u in us:
+        d = {u: "val-" + u, "s": u, "l": [u]}
+        out += [app({"var": u}, d), app({"var": [u, "dflt"]}, d), app({"missing": [u, u + "x"]}, d), app({"cat": [u, u]}, None), app({"substr": [u + "z", 1]}, None), app({"substr": [u + "z", -1]}, None),
+                app({"substr": [u, 0, 1]}, None), app({"in": [u, u + u]}, None), app({"in": ["b", u]}, None), app({"==": [u, u]}, None), app({"==": [u, 0]}, None), app({"<": [u, u + "a"]}, None),
+                app({"all": [u, {"var": ""}]}, None), app({"some": [u, {"==": [{"var": ""}, u[-1:]]}]}, None), app({"var": "s.0"}, d), app({"var": "s.-1"}, d), app({"+": [u]}, None), app({"!!": [u]}, None),
+                app({"===": [{"var": "s"}, {"var": "l.0"}]}, d), app({"log": u}, None), app({"var": "l.0.0"}, d), "to_string " + enc([u, None, u]), "str_to_number " + enc(u), "str_to_number " + enc(u + "1")]
+    return out
